@@ -74,6 +74,15 @@ E2E = {
     "satisfaction-foul-upon": (dict(aud="  al expects always: [x s] < 50",
                                     interp="interpretation\n  foul upon al satisfaction\nend\n"), True),
     "auditor-satisfied": (dict(aud="  al expects always: [x s] < 50"), False),
+    # auditor names are identifiers in the wide sense (letters of any script)
+    "unicode-auditor-disappointed-ignored": (dict(aud="  caf\u00e9 expects always: [x s] < 5",
+                                                 interp="interpretation\n  ignore caf\u00e9 disappointment\nend\n"), False),
+    "unicode-auditor-satisfaction-foul-upon": (dict(aud="  \u0436\u0443\u043a expects always: [x s] < 50",
+                                                   interp="interpretation\n  foul upon \u0436\u0443\u043a satisfaction\nend\n"), True),
+    # a member that `only helps` (no plot box) is judged like any other
+    "only-helps-auditor-disappointed": (dict(aud="  al expects always: [x s] < 5\n  al only helps"), True),
+    "only-helps-auditor-required-satisfaction-missing": (dict(aud="  al audits only while mood == 'green'\n  al expects always: [x s] < 50\n  al only helps\n  bo expects always: [x s] < 5\n  bo only helps",
+                                                             interp="interpretation\n  ignore bo disappointment\n  foul upon bo satisfaction\nend\n"), True),
     "expression-error-in-expects": (dict(aud="  al expects always: mood > 3"), True),
     "expression-error-in-condition": (dict(aud="  al audits only while mood > 3\n  al expects always: [x s] < 50"), True),
     "signal-only-auditor-disappointed-at-end": (dict(aud="  al expects eventually: [x s] > 100"), True),
@@ -287,7 +296,16 @@ BLOCKED_CSV = {
 }
 
 
+# a cleanup command that cannot even be started (the shell named by $SHELL does
+# not exist) is a failed cleanup
+NOEXEC = {
+    "cleanup-cannot-be-executed": ("role r\n  cleanup true\nend\ncast\n  x plays r\nend\nscript\n  tempo 50ms\n  storyline ..\nend\n", True),
+}
+
+
 def run_play(binpath, name, early, keepdir=None):
+    if name in NOEXEC:
+        return _run(binpath, name, early, NOEXEC[name][0], NOEXEC[name][1], shell="/nonexistent/sh")
     if name in BLOCKED_CSV:
         return _run(binpath, name, early, BLOCKED_CSV[name][0], BLOCKED_CSV[name][1])
     if name in EXTRA_R:
@@ -310,7 +328,7 @@ def run_play(binpath, name, early, keepdir=None):
     return _run(binpath, name, early, BASE % d, expected)
 
 
-def _run(binpath, name, early, text, expected, extra_args=()):
+def _run(binpath, name, early, text, expected, extra_args=(), shell="/bin/bash"):
     tmp = tempfile.mkdtemp(prefix="shk-c03-")
     try:
         cfg = os.path.join(tmp, "play.cfg")
@@ -324,7 +342,7 @@ def _run(binpath, name, early, text, expected, extra_args=()):
         t0 = time.time()
         try:
             p = subprocess.run(cmd, cwd=tmp, stdout=subprocess.PIPE, stderr=subprocess.STDOUT, timeout=120,
-                               text=True, errors="replace", env=dict(os.environ, SHELL="/bin/bash"))
+                               text=True, errors="replace", env=dict(os.environ, SHELL=shell))
             rc, out = p.returncode, p.stdout
         except subprocess.TimeoutExpired as e:
             rc, out = 124, (e.stdout or b"").decode("utf-8", "replace") if isinstance(e.stdout, bytes) else (e.stdout or "")
@@ -363,6 +381,7 @@ def run(tier, seed):
     jobs += [(n, e) for n in PLAIN for e in (False, True)]
     jobs += [(n, e) for n in EXTRA_R for e in (False, True)]
     jobs += [(n, False) for n in BLOCKED_CSV]
+    jobs += [(n, False) for n in NOEXEC]
     jobs += [(n, e) for n in ZERO for e in (False, True) for _ in range(ZERO_REPEATS[tier])]
     with concurrent.futures.ThreadPoolExecutor(max_workers=12) as ex:
         sig_futures = [ex.submit(signalled_play, bins["shakespeare"], sn) for sn in ("SIGTERM", "SIGHUP", "SIGINT")]
